@@ -106,10 +106,10 @@ func orderedSubsets(items []string, max int) [][]string {
 }
 
 type hostSpelling struct {
-	class   string
-	address string // handshake ServerAddress
-	port    int
-	want    string // the configured host it must resolve to ("" = none)
+	Class   string
+	Address string // handshake ServerAddress
+	Port    int
+	Want    string // the configured host it must resolve to ("" = none)
 }
 
 func hostSpellings() []hostSpelling {
@@ -122,16 +122,16 @@ func hostSpellings() []hostSpelling {
 		{"mixed+fml2", "PLAY.example.COM\x00FML2\x00"},
 	} {
 		for _, port := range []int{25565, 1, 65535} {
-			out = append(out, hostSpelling{class: h.cls, address: h.s, port: port, want: base})
+			out = append(out, hostSpelling{Class: h.cls, Address: h.s, Port: port, Want: base})
 		}
 	}
 	out = append(out,
-		hostSpelling{class: "other-configured-host", address: "Other.example.com", port: 25565, want: "other.example.com"},
-		hostSpelling{class: "unknown-host", address: "nomatch.example.com", port: 25565, want: ""},
-		hostSpelling{class: "prefix-of-host", address: "play.example.co", port: 25565, want: ""},
-		hostSpelling{class: "suffix-host", address: "xplay.example.com", port: 25565, want: ""},
-		hostSpelling{class: "ip", address: "192.0.2.10", port: 25565, want: ""},
-		hostSpelling{class: "empty", address: "", port: 25565, want: ""},
+		hostSpelling{Class: "other-configured-host", Address: "Other.example.com", Port: 25565, Want: "other.example.com"},
+		hostSpelling{Class: "unknown-host", Address: "nomatch.example.com", Port: 25565, Want: ""},
+		hostSpelling{Class: "prefix-of-host", Address: "play.example.co", Port: 25565, Want: ""},
+		hostSpelling{Class: "suffix-host", Address: "xplay.example.com", Port: 25565, Want: ""},
+		hostSpelling{Class: "ip", Address: "192.0.2.10", Port: 25565, Want: ""},
+		hostSpelling{Class: "empty", Address: "", Port: 25565, Want: ""},
 	)
 	return out
 }
@@ -162,7 +162,7 @@ func buildWorld(forced, try []string, registered []string, hs hostSpelling) *wor
 	}
 	conn := newC17Conn()
 	// the handshake handler builds the virtual host as "<ServerAddress>:<Port>"
-	vhost := netutil.NewAddr(fmt.Sprintf("%s:%d", hs.address, hs.port), "tcp")
+	vhost := netutil.NewAddr(fmt.Sprintf("%s:%d", hs.Address, hs.Port), "tcp")
 	deps := &sessionHandlerDeps{proxy: p, eventMgr: ev, configProvider: &c17Cfg{cfg}, authenticator: c17Auth}
 	pl := newConnectedPlayer(conn, &profile.GameProfile{ID: uuid.New(), Name: "tester"}, vhost, packet.LoginHandshakeIntent, false, nil, deps)
 	return &world{proxy: p, player: pl, conn: conn, ev: ev}
@@ -183,7 +183,7 @@ func newModel(forced, try, registered []string, hs hostSpelling) *model {
 	for _, r := range registered {
 		m.registered[r] = true
 	}
-	switch hs.want {
+	switch hs.Want {
 	case "play.example.com":
 		m.list = forced
 	case "other.example.com":
@@ -240,7 +240,7 @@ func runCase(c caseID) (string, string, string) {
 	want := m.next("")
 	obs := "init=" + got
 	if got != want {
-		return "initial-server", fmt.Sprintf("initial server: got %q want %q (list %v, registered %v, host %q)", got, want, m.list, c.Registered, c.Host.address), obs
+		return "initial-server", fmt.Sprintf("initial server: got %q want %q (list %v, registered %v, host %q)", got, want, m.list, c.Registered, c.Host.Address), obs
 	}
 	for i, o := range c.History {
 		switch o.Kind {
@@ -377,9 +377,9 @@ func TestVerif(t *testing.T) {
 					for _, hs := range hosts {
 						// full histories only for the canonical spelling classes; other spellings check the initial choice + depth-1
 						hl := histories
-						if hs.class != "exact" && hs.class != "mixed+fml2" && hs.class != "unknown-host" {
+						if hs.Class != "exact" && hs.Class != "mixed+fml2" && hs.Class != "unknown-host" {
 							hl = histories[:1+len(ops)]
-							if r.Quick() && hs.port != 25565 {
+							if r.Quick() && hs.Port != 25565 {
 								hl = histories[:1]
 							}
 						}
@@ -387,7 +387,7 @@ func TestVerif(t *testing.T) {
 							c := caseID{Forced: forced, Try: try, Registered: reg, Host: hs, History: h}
 							k, d, obs := runCase(c)
 							r.Eval(1)
-							r.Class("host:" + hs.class)
+							r.Class("host:" + hs.Class)
 							if strings.HasSuffix(obs, ";skip") {
 								r.Class("history-not-applicable")
 								continue
@@ -403,7 +403,7 @@ func TestVerif(t *testing.T) {
 							}
 							if sampled < 2 && len(h) == depth && strings.Contains(obs, "->s") {
 								sampled++
-								r.Sample(map[string]any{"forced": forced, "try": try, "registered": reg, "host": hs.address, "history": fmt.Sprint(h), "observed": obs})
+								r.Sample(map[string]any{"forced": forced, "try": try, "registered": reg, "host": hs.Address, "history": fmt.Sprint(h), "observed": obs})
 							}
 						}
 					}
